@@ -397,9 +397,11 @@ def gen(props, tier, rng):
     if 'C01' in props:
         for n in [254, 255, 256, 300, 1000] + ([] if q else [4095, 40000, 65535]):
             for patlen in [0, 3, 8]:
-                val = rulegen.rbits(rng, n + patlen)
-                pkt = rulegen.packet_from_fields([('a', 0, rulegen.rbits(rng, 5)), ('v', 0, val), ('z', 0, rulegen.rbits(rng, 9))], rulegen.rbits(rng, rng.choice([0, 7, 16])))
                 for kind in ('vs', 'lsb'):
+                    # the residue (whole value for value-sent, value minus the pattern for LSB) has exactly n bits: n = 65535 is the
+                    # largest size RFC 8724 §7.4.2 can announce (beyond it the library's AssertionError is C17's subject, not C01's)
+                    val = rulegen.rbits(rng, n + (patlen if kind == 'lsb' else 0))
+                    pkt = rulegen.packet_from_fields([('a', 0, rulegen.rbits(rng, 5)), ('v', 0, val), ('z', 0, rulegen.rbits(rng, 9))], rulegen.rbits(rng, rng.choice([0, 7, 16])))
                     rf = [{'id': 'a', 'len': 5, 'pos': 0, 'dir': 'B', 'mo': 'ig', 'cda': 'vs', 'tv': ('b', 'L:')},
                           {'id': 'v', 'len': 0, 'pos': 0, 'dir': 'B', 'mo': 'ig' if kind == 'vs' else 'msb', 'cda': kind, 'tv': ('b', 'L:' + (val[:patlen] if kind == 'lsb' else ''))},
                           {'id': 'z', 'len': 9, 'pos': 0, 'dir': 'B', 'mo': 'eq', 'cda': 'ns', 'tv': ('b', pkt['fields'][2]['value'])}]
